@@ -1,70 +1,69 @@
-import HdModel.Lemmas.PoolFrame
+import HdModel.Lemmas.PoolOrigin
 /-! # C06 — connections are never shared across origins
 
-`tokenOf` mirrors `TokenMap::insert` (src/client/pool/key.rs): origins (scheme, authority – compared
-case-insensitively by the `http` crate, hence canonical `KeyId`s here) get distinct non-zero
-tokens, and every pool structure is indexed by token. The counter's wrap-around at `usize::MAX`
-is out of the model (it needs 2^64 distinct origins). -/
+`Lemmas/PoolKeys.lean`: `tokenOf` mirrors `TokenMap::insert` – origins (scheme, authority; compared
+case-insensitively by the `http` crate, hence canonical `KeyId`s here) get distinct non-zero tokens
+(`C06_tokenOf`, `C06_tokens_distinct`). `Lemmas/PoolOrigin.lean`: the invariant `OriginInv` – every
+connection in an idle list, in a waiter's channel, popped into a checkout, held by a request, or
+waiting in a `WhenReady` task belongs to the origin of the token it is filed under – is kept by
+every pool primitive and every operation. The theorems below are its consequences for **every**
+operation sequence. The counter's wrap-around at `usize::MAX` is out of the model. -/
 namespace Hd.Pool
 
-/-- The token table is well formed: tokens are non-zero, below the counter, and injective. -/
-def KeysOk (s : State) : Prop :=
-  0 < s.counter ∧
-  (∀ k t, s.keys.lookup k = some t → 0 < t ∧ t < s.counter) ∧
-  (∀ k k' t, s.keys.lookup k = some t → s.keys.lookup k' = some t → k = k')
+theorem run_coSame : ∀ (ops : List Op) (s : State), OriginInv s → CoSame s.co (run s ops).1.co
+  | [], _, _ => CoSame.refl _
+  | op :: ops, s, h => by
+    simp only [run]
+    exact (step_coSame s op h).trans (run_coSame ops _ (step_originInv s op h))
 
-theorem keysOk_init (cfg : Config) : KeysOk (init cfg) := by
-  refine ⟨by simp [init], ?_, ?_⟩ <;> simp [init]
+/-- **C06 (reachable states).** In every state reachable by any operation sequence, the connection a
+    request holds belongs to the origin of that request's checkout. -/
+theorem C06_held_same_origin (cfg : Config) (ops : List Op) (r : ReqId) (p : Pooled)
+    (h : (run (init cfg) ops).1.held r = some p) :
+    ∃ chk conn, (run (init cfg) ops).1.co r = some chk ∧ (run (init cfg) ops).1.conns p.conn = some conn ∧
+      conn.origin = chk.key := by
+  have hinv := run_originInv ops (init cfg) (originInv_init cfg)
+  obtain ⟨chk, hco, hct, _⟩ := hinv.held r p h
+  obtain ⟨conn, hc, ho⟩ := hct.origin_eq hinv.keysOk (hinv.co.1 r chk hco)
+  exact ⟨chk, conn, hco, hc, ho⟩
 
-/-- **C06 (distinct origins, distinct tokens).** `tokenOf` keeps the table well formed, returns the
-    key's token, and never hands the same token to two different keys. -/
-theorem C06_tokenOf (s : State) (k : KeyId) (h : KeysOk s) :
-    KeysOk (tokenOf s k).1 ∧ (tokenOf s k).1.keys.lookup k = some (tokenOf s k).2 ∧
-    (∀ k' t, s.keys.lookup k' = some t → (tokenOf s k).1.keys.lookup k' = some t) := by
-  obtain ⟨hc, hr, hi⟩ := h
-  unfold tokenOf
-  cases hl : s.keys.lookup k with
-  | some t => exact ⟨⟨hc, hr, hi⟩, hl, fun _ _ h => h⟩
-  | none =>
-    have hnew : ∀ k' t, ((k, s.counter) :: s.keys).lookup k' = some t →
-        (k' = k ∧ t = s.counter) ∨ (k' ≠ k ∧ s.keys.lookup k' = some t) := by
-      intro k' t ht
-      by_cases e : k' = k
-      · subst e; simp [List.lookup_cons] at ht; exact Or.inl ⟨rfl, ht.symm⟩
-      · have : (k' == k) = false := by simpa using e
-        simp only [List.lookup_cons, this] at ht
-        exact Or.inr ⟨e, ht⟩
-    refine ⟨⟨Nat.succ_pos _, ?_, ?_⟩, by simp [List.lookup_cons], ?_⟩
-    · intro k' t ht
-      rcases hnew k' t ht with ⟨_, rfl⟩ | ⟨_, h'⟩
-      · exact ⟨hc, Nat.lt_succ_self _⟩
-      · have := hr k' t h'; exact ⟨this.1, Nat.lt_succ_of_lt this.2⟩
-    · intro k1 k2 t h1 h2
-      rcases hnew k1 t h1 with ⟨e1, t1⟩ | ⟨_, h1'⟩ <;> rcases hnew k2 t h2 with ⟨e2, t2⟩ | ⟨_, h2'⟩
-      · rw [e1, e2]
-      · subst t1; have := (hr k2 _ h2').2; exact absurd this (Nat.lt_irrefl _)
-      · subst t2; have := (hr k1 _ h1').2; exact absurd this (Nat.lt_irrefl _)
-      · exact hi k1 k2 t h1' h2'
-    · intro k' t ht
-      by_cases e : k' = k
-      · subst e; rw [hl] at ht; cases ht
-      · have : (k' == k) = false := by simpa using e
-        simp only [List.lookup_cons, this]
-        exact ht
+/-- **C06.** Whatever happened before request `r` was issued for origin `k` (`ops1`) and whatever
+    happens afterwards (`ops2`: any interleaving of polls, cancellations, dial results, releases,
+    readiness and close events, task runs, clock ticks and other requests for any origins), a
+    connection `r` is ever given belongs to origin `k`. -/
+theorem C06_request_gets_own_origin (cfg : Config) (ops1 ops2 : List Op) (r : ReqId) (k : KeyId) (mux : Bool)
+    (p : Pooled) (hnew : (run (init cfg) ops1).1.co r = none)
+    (h : (run (step (run (init cfg) ops1).1 (.issue r k mux)).1 ops2).1.held r = some p) :
+    ∃ conn, (run (step (run (init cfg) ops1).1 (.issue r k mux)).1 ops2).1.conns p.conn = some conn ∧ conn.origin = k := by
+  have h1 := run_originInv ops1 (init cfg) (originInv_init cfg)
+  have h2 := step_originInv _ (.issue r k mux) h1
+  have h3 := run_originInv ops2 _ h2
+  -- the checkout created by `issue` has key `k`
+  obtain ⟨chk0, hco0, hk0⟩ := issue_co (run (init cfg) ops1).1 r k mux
+  have hstep : (step (run (init cfg) ops1).1 (.issue r k mux)).1.co r = some chk0 := by
+    simp only [step, hnew]
+    rw [hco0]; simp
+  -- … and keeps it
+  obtain ⟨chk', hco', _, hk'⟩ := run_coSame ops2 _ h2 r chk0 hstep
+  obtain ⟨chk, hco, hct, _⟩ := h3.held r p h
+  rw [hco'] at hco; cases hco
+  obtain ⟨conn, hc, ho⟩ := hct.origin_eq h3.keysOk (h3.co.1 r chk' hco')
+  exact ⟨conn, hc, by rw [ho, hk', hk0]⟩
 
-/-- Two different origins never receive the same token (at any later time either, since entries
-    are never removed or changed). -/
-theorem C06_tokens_distinct (s : State) (k k' : KeyId) (h : KeysOk s) (hne : k ≠ k') :
-    (tokenOf s k).2 ≠ (tokenOf (tokenOf s k).1 k').2 := by
-  obtain ⟨h1, hk, _⟩ := C06_tokenOf s k h
-  obtain ⟨h2, hk', hmono⟩ := C06_tokenOf (tokenOf s k).1 k' h1
-  intro e
-  have := h2.2.2 k k' _ (hmono k _ hk) (e ▸ hk')
-  exact hne this
+/-- **C06 (pool contents).** In every reachable state every idle connection filed under a token
+    belongs to the one origin that owns the token. -/
+theorem C06_idle_same_origin (cfg : Config) (ops : List Op) (t : Token) (c : ConnId) (a : Nat)
+    (h : (c, a) ∈ (run (init cfg) ops).1.idle t) :
+    ∃ k conn, (run (init cfg) ops).1.keys.lookup k = some t ∧ (run (init cfg) ops).1.conns c = some conn ∧ conn.origin = k :=
+  (run_originInv ops (init cfg) (originInv_init cfg)).idle t c a h
 
-/-- A connection established by a checkout carries that checkout's origin. -/
-theorem C06_new_conn_origin (s : State) (c : Checkout) (alpn : Bool) :
-    ((newConn s c alpn).1.conns (newConn s c alpn).2).map (·.origin) = some c.key := by
-  simp [newConn]
+/-- Non-vacuity: two origins, a released HTTP/1 connection of the first is idle, a request for the
+    second does not get it (it dials), a request for the first does. -/
+example :
+    let ops : List Op := [.issue 0 7 false, .poll 0, .dialDone 0 (.ok false), .poll 0, .finish 0, .connReady 0, .run,
+                          .issue 1 9 false, .poll 1, .issue 2 7 false, .poll 2]
+    let s := (run (init {}) ops).1
+    s.held 2 = some ⟨0, 1, true⟩ ∧ s.held 1 = none ∧ (s.dial 1).started = true ∧ (s.dial 2).started = false := by
+  decide
 
 end Hd.Pool
